@@ -343,6 +343,38 @@ def run_polygon(c):
         if r.location in (Rectangle.StogLocation.NO_POLYGON, Rectangle.StogLocation.TRUNK):
             raise Violation("rectangle %s of the decomposition carries %s" % (r, r.location), "polygon-branch-role")
     cls = ["numpy" if c["numpy"] else "points", "cw" if c["reverse"] else "ccw"]
+    if c["numpy"]:
+        # the same vertex buffer is decomposed, moved IN PLACE (the block is translated) and decomposed again
+        dx, dy = 16 * float(u), 8 * float(u)
+        for container in ("array", "list-of-arrays"):
+            buf = np.array([[float(x), float(y)] for x, y in poly]) if container == "array" else [np.array([float(x), float(y)]) for x, y in poly]
+            try:
+                first = strop_decomposition(buf)
+                if container == "array":
+                    buf += np.array([dx, dy])
+                else:
+                    for v in buf:
+                        v += np.array([dx, dy])
+                second = strop_decomposition(buf)
+            except Exception as e:
+                raise Violation("strop_decomposition raised %s: %s when the vertex %s was decomposed, translated in place and decomposed again "
+                                "(orthogon %s)" % (type(e).__name__, str(e)[:200], container, c["rects"]), "polygon-raised-after-move")
+            want = [[r[0] + dx, r[1] + dy, r[2], r[3]] for r in first]
+            got2 = [list(map(float, r)) for r in second]
+            scale = max(abs(v) for r in want for v in r)
+
+            def same(x, y):
+                return all(abs(a - b) <= 1e-9 * scale for a, b in zip(x, y))
+            rest = list(got2)
+            for w_ in want:
+                k = next((i for i, g in enumerate(rest) if same(g, w_)), None)
+                if k is None:
+                    break
+                rest.pop(k)
+            if len(want) != len(got2) or rest:
+                raise Violation("strop_decomposition of a vertex %s translated in place by (%r, %r) gives %s, the decomposition before the move "
+                                "was %s" % (container, dx, dy, second, first), "polygon-stale-after-move")
+        cls.append("vertex-buffer-moved-in-place")
     if c["collinear"]:
         cls.append("redundant-vertices")
     if len(out) >= 3:
@@ -371,5 +403,5 @@ def subchecks():
         Sub("random", run_random, strategy=random_grid_s(), n_quick=6000, n_thorough=200000, fuzz_thorough=4000,
             required=("decomposable", "not-decomposable", "ring", "staircase", "two-components", "near-stog", "explicit-sizes")),
         Sub("polygons", run_polygon, strategy=polygon_s(), n_quick=4000, n_thorough=100000, fuzz_thorough=2000,
-            required=("numpy", "points", "cw", "ccw", "redundant-vertices", ">=3-rectangles", "negative-coordinates", "vertex-at-x=-1")),
+            required=("numpy", "points", "cw", "ccw", "redundant-vertices", ">=3-rectangles", "negative-coordinates", "vertex-at-x=-1", "vertex-buffer-moved-in-place")),
     ]
